@@ -22,7 +22,9 @@ class WeirdExit(BaseException):
 
 def body_exception(n):
     """remote bodies fail with different exception classes: all must surface as RemoteError"""
-    return (ValueError, WeirdExit, SystemExit, GeneratorExit, ArithmeticError)[n % 5]("E%d" % n)
+    # EOFError among them: a body that reads past the end of some *other* channel (or of its stdin) fails with it while
+    # the connection is alive
+    return (ValueError, WeirdExit, SystemExit, GeneratorExit, ArithmeticError, EOFError)[n % 6]("E%d" % n)
 
 
 class Ctl:
